@@ -502,10 +502,66 @@ def bounded_reuse(ctx):
     ctx.sample({'graph object reuse': ['gphp', 'sparsestone'], 'class': 'opb'})
 
 
+def _bits(m):
+    b = 0
+    while (1 << b) < m:
+        b += 1
+    return b
+
+
+def eval_boundary(cls, what, a, b, pre=0):
+    """boundary sizes (0 and 1) of binary mappings and the families built on them: the documented variable count
+    n * ceil(log2 m) (no bit for an empty or singleton range) and WF"""
+    core.import_repo()
+    C = _classes()[cls]
+    from cnfgen import BinaryPigeonholePrinciple, BinaryCliqueFormula
+    from cnfgen.graphs import Graph
+    try:
+        if what == 'new_binary_mapping':
+            F = C()
+            F.update_variable_number(pre)
+            g = list(F.new_binary_mapping(a, b))
+            if len(g) != a * _bits(b) or g != list(range(pre + 1, pre + 1 + len(g))):
+                return 'new_binary_mapping({},{}) after {} variables got identifiers {} (documented: {} fresh consecutive ones)'.format(a, b, pre, g, a * _bits(b))
+            want = pre + a * _bits(b)
+        elif what == 'bphp':
+            F = BinaryPigeonholePrinciple(a, b, formula_class=C)
+            want = a * _bits(b)
+        else:
+            F = BinaryCliqueFormula(Graph(a), b, formula_class=C)
+            want = b * _bits(a)
+    except Exception as e:
+        return '{}({},{}) raised {}: {}'.format(what, a, b, type(e).__name__, e)
+    if F.number_of_variables() != want:
+        return '{}({},{}) declares {} variables, documented {}'.format(what, a, b, F.number_of_variables(), want)
+    return scan(F)
+
+
+def replay_boundary(cls, what, a, b, pre=0):
+    return eval_boundary(cls, what, a, b, pre) is None
+
+
+def bounded_boundary(ctx):
+    n = 0
+    for cls in ('cnf', 'opb'):
+        for what in ('new_binary_mapping', 'bphp', 'kcliquebin'):
+            for a in range(0, 4):
+                for b in range(0, 6):
+                    for pre in ((0, 3) if what == 'new_binary_mapping' else (0,)):
+                        n += 1
+                        ctx.case(('boundary', cls, what, a, b, pre), nontrivial=True)
+                        bad = eval_boundary(cls, what, a, b, pre)
+                        if bad:
+                            ctx.violation('boundary:{}:{}'.format(what, 'zero' if 0 in (a, b) else 'count'), '{} {}'.format(cls, bad),
+                                          {'fn': 'checks.C10:replay_boundary', 'args': dict(cls=cls, what=what, a=a, b=b, pre=pre)})
+    ctx.bounds['boundary sizes'] = '{} calls of new_binary_mapping / BinaryPigeonholePrinciple / BinaryCliqueFormula with sizes 0..5 incl. empty domain and range'.format(n)
+
+
 def run(ctx):
     from checks import proofs
     proofs.run_group(ctx, 'C10')
     core.import_repo()
+    bounded_boundary(ctx)
     bounded_reuse(ctx)
     bounded_families(ctx)
     bounded_transformations(ctx)
